@@ -152,8 +152,11 @@ func NewCopyChainGeneratorFromOpts(ctx context.Context, client *client.LogClient
 		Continuous:    true,
 		StartIndex:    startIndex,
 	}
+	// Each Fetcher adjusts the EndIndex of the options it is given (Prepare, and updateSTH in
+	// continuous mode): the two must not share one struct.
+	certOpts, precertOpts := fetchOpts, fetchOpts
 	go func() {
-		certFetcher := scanner.NewFetcher(client, &fetchOpts)
+		certFetcher := scanner.NewFetcher(client, &certOpts)
 		if err := certFetcher.Run(ctx, func(batch scanner.EntryBatch) {
 			generator.processBatch(batch, generator.certs, ct.X509LogEntryType)
 		}); err != nil {
@@ -161,7 +164,7 @@ func NewCopyChainGeneratorFromOpts(ctx context.Context, client *client.LogClient
 		}
 	}()
 	go func() {
-		precertFetcher := scanner.NewFetcher(client, &fetchOpts)
+		precertFetcher := scanner.NewFetcher(client, &precertOpts)
 		if err := precertFetcher.Run(ctx, func(batch scanner.EntryBatch) {
 			generator.processBatch(batch, generator.precerts, ct.PrecertLogEntryType)
 		}); err != nil {
